@@ -17,3 +17,11 @@ func (p *Primary) VerifSessionCount() int {
 	defer p.mu.RUnlock()
 	return len(p.sessions)
 }
+
+// VerifDeliver hands one stream message to the handler the streaming state uses.
+func (r *Replica) VerifDeliver(m *replication_proto.WALStreamResponse) error {
+	return r.processEntriesWithoutStateTransitions(m)
+}
+
+// VerifExpectedNext returns the sequence the replica would request next.
+func (r *Replica) VerifExpectedNext() uint64 { return r.batchApplier.GetExpectedNext() }
